@@ -488,12 +488,48 @@ def rule_ep(fx, rep):
         src = b.expr(t["args"][0], expand_named=True)
         dst = b.expr(t["args"][1], expand_named=True)
         good, why = False, "no king-safety probe guards the construction of the en-passant move"
+        recs = []
         for (pb, pp, psq, probe_bb) in probes_guarding(b, bb):
             L = board_local(pb)
             if L is None:
+                recs.append(None)
+                continue
+            recs.append((pp, psq) + tuple(scratch_edits(b, L, probe_bb)))
+        # the probe may sit in a bool-valued helper of the generator (`!en_passant_reveals_check(game, king, from, target, victim)`):
+        # its scratch-board edits and probe arguments are taken from the helper, with its parameters replaced by the arguments
+        from facts import substitute_args as _sa, decision_paths as _dp
+        for (ge, gpol, gw) in guard_conditions(b, bb, expand_named=keep_state(b)):
+            gd = strip_refs(ge)
+            hb = fx.body(gd[1]) if isinstance(gd, tuple) and gd and gd[0] == "call" and isinstance(gd[1], str) else None
+            if hb is None or not norm(hb.name).startswith("chess::movegen::gen::") or (hb.local_ty(0) or "") != "bool":
+                continue
+            for hbb, ht in hb.calls():
+                if not norm(callee_name(ht) or "").endswith("generate_attackers_of"):
+                    continue
+                # polarity: the helper's result is `.any()` (true = attacked) or `.is_empty()` (true = safe) of that call
+                rets = [pp_[1] for pp_ in _dp(hb, 16) if pp_[1] is not None]
+                r0 = strip_refs(rets[0]) if len(rets) == 1 else None
+                attacked_means = None
+                if isinstance(r0, tuple) and r0 and r0[0] == "call" and str(r0[1]).endswith("Bitboard::any"):
+                    attacked_means = True
+                elif isinstance(r0, tuple) and r0 and r0[0] == "call" and str(r0[1]).endswith("Bitboard::is_empty"):
+                    attacked_means = False
+                if attacked_means is None or (gpol is True) == attacked_means:
+                    continue
+                hargs = [hb.expr(a, expand_named=keep_state(hb), at=hbb) for a in ht["args"]]
+                L = board_local(hargs[0])
+                if L is None:
+                    recs.append(None)
+                    continue
+                is_clone, edits, others = scratch_edits(hb, L, hbb)
+                actual = gd[2]
+                edits = [tuple([ed[0]] + [_sa(x, actual) for x in ed[1:]]) for ed in edits]
+                recs.append((_sa(hargs[1], actual), _sa(hargs[2], actual), is_clone, edits, others))
+        for rec in recs:
+            if rec is None:
                 why = "the king-safety probe runs on the unmodified position (must be a scratch copy edited to the position after the capture)"
                 continue
-            is_clone, edits, others = scratch_edits(b, L, probe_bb)
+            pp, psq, is_clone, edits, others = rec
             if not is_clone:
                 why = "the probed scratch board is not a clone of the position's board"
                 continue
@@ -909,14 +945,25 @@ def rule_flags(fx, rep):
     # (iii) promotion tables: writer (kind -> label) and reader (label -> kind) agree
     kinds = {v["discr"]: v["name"] for v in fx.adt("piece::PromotionPieceKind")["variants"]}
     fl_by_discr = {v: k for k, v in flags.items()}
-    reader = match_table(fx.one("Move::promotion"))
+    rbody = fx.one("Move::promotion")
+    reader = match_table(rbody)
+    if not any(v != "otherwise" for v in reader):
+        # the label -> kind table may sit in a method of Flags the accessor delegates to (`self.flags().promotion()`)
+        for hbb, ht in rbody.calls():
+            hb = fx.body(callee_name(ht)) if callee_name(ht) else None
+            if hb is not None and hb is not rbody and "PromotionPieceKind" in (hb.local_ty(0) or "") and (hb.local_ty(1) or "").endswith("moves::Flags"):
+                reader = match_table(hb)
+    reader_known = any(v != "otherwise" for v in reader)
     rd = {}
     for val, tags in reader.items():
         k = [t.split("::")[-1] for t in tags if "PromotionPieceKind::" in t]
         if val != "otherwise" and k:
             rd[fl_by_discr.get(val, val)] = k[0]
     undecided_promo = 0
-    for ctor, prefix in (("Move::quiet_promotion", "PromoteTo"), ("Move::capture_promotion", "CaptureAndPromoteTo")):
+    if not reader_known:
+        rep.notes.append("C01-FLAGS: the label -> kind table of `Move::promotion` is not a `match` in the accessor or in a Flags method it calls; promotion tables not decided")
+        undecided_promo = 9
+    for ctor, prefix in (("Move::quiet_promotion", "PromoteTo"), ("Move::capture_promotion", "CaptureAndPromoteTo")) if reader_known else ():
         cbody = fx.one(ctor)
         tbl = match_table(cbody)
         if not any(v != "otherwise" for v in tbl):
@@ -942,7 +989,7 @@ def rule_flags(fx, rep):
             if not good:
                 bad(f"promo/{ctor}/{kind}", f"`{ctor}` labels a promotion to {kind} as {lab[:1]}, which Move::promotion reads back as {rd.get(lab[0]) if lab else None}", fx.one(ctor))
     n += 1
-    good = set(rd) == pro_set
+    good = set(rd) == pro_set or not reader_known
     rep.obligation(good)
     if not good:
         bad("promo/reader", f"Move::promotion recognises {sorted(rd)} as promotions, expected exactly {sorted(pro_set)}", fx.one("Move::promotion"))
